@@ -50,6 +50,8 @@ pub struct LogInner {
     pub snr: i8,
     /// Next value of the scripted counter RNG (shared so the harness can set it any time).
     pub rng_next: u32,
+    /// Board lead time declared through `Timings` (ms).
+    pub lead_ms: u32,
 }
 
 pub type Log = Rc<RefCell<LogInner>>;
@@ -179,7 +181,7 @@ impl<const PW: u8, const G: i8> nb_device::radio::PhyRxTx for NbRadio<PW, G> {
 
 impl<const PW: u8, const G: i8> lorawan_device::Timings for NbRadio<PW, G> {
     fn get_rx_window_offset_ms(&self) -> i32 {
-        -(LEAD_MS as i32)
+        -(self.log.borrow().lead_ms as i32)
     }
     fn get_rx_window_duration_ms(&self) -> u32 {
         800
@@ -269,7 +271,7 @@ impl<const PW: u8, const G: i8> async_device::radio::PhyRxTx for AsRadio<PW, G> 
 
 impl<const PW: u8, const G: i8> async_device::Timings for AsRadio<PW, G> {
     fn get_rx_window_lead_time_ms(&self) -> u32 {
-        LEAD_MS
+        self.log.borrow().lead_ms
     }
 }
 
@@ -478,7 +480,7 @@ impl Default for DevOpts {
 
 impl<const PW: u8, const G: i8> Dev<PW, G> {
     pub fn new(front: Front, reg: Reg, creds: Creds, opts: &DevOpts) -> Self {
-        let log: Log = Rc::new(RefCell::new(LogInner { tx_done_ms: 0, snr: 5, rng_next: opts.rng_start, ..Default::default() }));
+        let log: Log = Rc::new(RefCell::new(LogInner { tx_done_ms: 0, snr: 5, rng_next: opts.rng_start, lead_ms: LEAD_MS, ..Default::default() }));
         let rng = SRng { log: log.clone(), prng: opts.rng_seed.map(Prng::new) };
         let cfg = region_config(reg, opts.bias);
         let dev = match front {
@@ -742,7 +744,8 @@ fn nb_transact<const PW: u8, const G: i8>(d: &mut NbDev<PW, G>, jm: JoinMode, ac
             return Resp::Error("nb-driver: transaction did not finish in 64 steps".into());
         }
         match resp {
-            Response::TimeoutRequest(_) => {
+            Response::TimeoutRequest(ms) => {
+                d.get_radio().log.borrow_mut().ev.push(Ev::TimerAt(ms as u64));
                 match window {
                     0 | 2 => {
                         // window opens (an application retries a failed radio request once:
@@ -858,4 +861,61 @@ impl<const PW: u8, const G: i8> Dev<PW, G> {
 pub fn short_loc(loc: &str) -> String {
     let f = loc.rsplit_once(':').map(|x| x.0).unwrap_or(loc);
     f.trim_start_matches("/repo/").to_string()
+}
+
+/// A joined device together with the network's view of the session.
+pub struct Link<const PW: u8 = 20, const G: i8 = 0> {
+    pub dev: Dev<PW, G>,
+    pub net: Net,
+    /// last downlink counter the network used
+    pub fdown: u32,
+    /// lower bound for the next uplink counter
+    pub up_min: u32,
+}
+
+pub struct Txn {
+    pub resp: Resp,
+    /// all events of the transaction
+    pub evs: Vec<Ev>,
+    /// the decoded data uplink, if one was handed to the radio and decodes
+    pub up: Option<crate::net::Uplink>,
+    pub tx_bytes: Option<Vec<u8>>,
+}
+
+impl<const PW: u8, const G: i8> Link<PW, G> {
+    pub fn abp(front: Front, reg: Reg, rng: &mut Prng, opts: &DevOpts) -> Option<Self> {
+        let (dev, net) = abp_dev::<PW, G>(front, reg, rng, opts, |_| {}).ok()?;
+        Some(Link { dev, net, fdown: 0, up_min: 0 })
+    }
+
+    /// One data transaction.
+    pub fn txn(&mut self, data: &[u8], port: u8, confirmed: bool, script: &Script) -> Txn {
+        let ev0 = self.dev.ev_len();
+        let resp = self.dev.transact(Action::Send { data, port, confirmed }, script);
+        let evs = self.dev.evs_since(ev0);
+        let tx_bytes = evs.iter().find_map(|e| if let Ev::Tx { bytes, .. } = e { Some(bytes.clone()) } else { None });
+        let up = tx_bytes.as_ref().and_then(|b| self.net.decode_uplink(b, self.up_min));
+        if let Some(u) = &up {
+            self.up_min = u.fcnt.saturating_add(1);
+        }
+        Txn { resp, evs, up, tx_bytes }
+    }
+
+    /// Next authentic downlink carrying `cmds` (FOpts when they fit and `in_fopts`, else port 0).
+    pub fn mac_frame(&mut self, cmds: &[u8], in_fopts: bool) -> Vec<u8> {
+        self.fdown += 1;
+        self.net.mac_downlink(self.fdown, cmds, in_fopts)
+    }
+
+    /// Delivers `cmds` in RX1 (or RX2) of a fresh uplink; returns that transaction.
+    pub fn deliver_mac(&mut self, cmds: &[u8], in_fopts: bool, rx2: bool) -> Txn {
+        let f = self.mac_frame(cmds, in_fopts);
+        let script = if rx2 { Script::rx2(f) } else { Script::rx1(f) };
+        let t = self.txn(&[0x11], 1, false, &script);
+        if !matches!(t.resp, Resp::DownlinkReceived(_)) {
+            // the frame was not accepted: the network's counter was not consumed by the device,
+            // but using a fresh one next time is always legal
+        }
+        t
+    }
 }
